@@ -603,12 +603,18 @@ func c13Families(thorough bool) []*c13Family {
 		cells:   []c13Cell{{0, "P", d3}},
 		fixed:   []c13Fixed{{0, ".sourcegraph/ignore", 4}, {1, ".sourcegraph/ignore", 4}, {0, "Q", 3}},
 		ignored: map[string]bool{"P": true}}
+	// the same path is a file on one branch and a directory on the other at the same time
+	xfd := &c13Family{name: "XFD", rounds: 1,
+		desc:  "P is a file on main x {absent,c1,c2} while P/x is a file on dev x {absent,c1} (P is a directory there); constant file Q on both branches",
+		cells: []c13Cell{{0, "P", d3}, {1, "P/x", []int{0, 1}}},
+		fixed: []c13Fixed{{0, "Q", 3}, {1, "Q", 3}}}
 	var fams []*c13Family
 	if !thorough {
-		fams = append(fams, ign, pq("P", reps, 2, repNote))
+		fams = append(fams, ign, xfd, pq("P", reps, 2, repNote))
 	} else {
+		xfd.rounds = 2
 		fams = append(fams,
-			ign,
+			ign, xfd,
 			pq("P", []int{2, 6, 7, 8}, 2, "the other five initial states are covered by family P3"),
 			// files moving between paths and branches: three cells with {absent, c1}
 			&c13Family{name: "R", rounds: 2,
